@@ -408,7 +408,7 @@ def parse_impl(out):
                 rec = {"it": int(w[1]), "err": int(w[2]), "awake": int(w[3])}
                 names = ["x_rep", "v_rep", "epot", "ekin", "ft", "fr", "f", "fz", "energy", "x_ext", "v_ext", "k", "m", "gamma", "sigma"]
                 for n_, t in zip(names, w[4:]):
-                    rec[n_] = float.fromhex(t)
+                    rec[n_] = float("nan") if t == "notset" else float.fromhex(t)      # x_ext before the variable's first update
                 res[cur][1].append(rec)
             except ValueError:
                 res[cur][1].append(None)
@@ -859,13 +859,13 @@ def compare(run, c, tag, scn, impl, mline, mout, first_event=None):
         for fld in FIELDS:
             if fld == "energy" and c.get("biases"):
                 continue                                   # the engine's energy also contains the bias energy
-            if resumed and c.get("reload") and not rec["awake"] and fld in ("epot", "ekin", "ft"):
+            if resumed and c.get("reload") and not rec["awake"] and (fld in ("epot", "ekin", "ft") or (fld in ("x_rep", "v_rep") and math.isnan(rec["x_ext"]))):
                 continue                                   # stale fields of the old trajectory, shown (not used) until the first update
             a, b = rec[fld], ms[fld]
             if fld == "err":
                 same = (a == b)
             else:
-                same = close(a, b, 1e-8 if resumed else TOL) or (a == b)
+                same = close(a, b, 1e-8 if resumed else TOL) or (a == b) or (math.isnan(a) and math.isnan(b))
                 exact = exact and (a == b)
             if not same:
                 run.mismatch("step:" + fld, {"scenario": scn, "model_case": mline, "engine_step": j + first_event}, a, b)
@@ -908,7 +908,12 @@ def witness_cases():
     # C17_reflect_periodic_one_sided_refuted: periodic variable, only the lower boundary reflecting
     w4 = dict(base, kind="witness-periodic-one-sided", rlo=1, rup=0, per=1, P=4.0, ctr=0.0, lower=-1.0, upper=1.0, width=0.25, tau=64.0)
     w4["events"] = [{"boundary": 0, "running": 1, "x": 1.5, "fb": 4.0, "fba": 0.0} for t in range(24)]
-    return [w1, w2, w3, w4]
+    # C17_resume_before_first_update: the job starts between two steps of the variable, the state is written before its first update
+    w5 = dict(base, kind="witness-resume-before-first-update", tsf=3, rlo=0, rup=0, tau=48.0, start_step=4, resume_at=2)
+    w5["events"] = [{"boundary": 0, "running": 1, "x": 0.5 + 0.0625 * t, "fb": 0.5, "fba": 0.0} for t in range(12)]
+    w6 = dict(w5, kind="witness-resume-before-first-update-huge", start_step=2 ** 53 + 7, tsf=7, tau=112.0, resume_at=3)
+    w6["events"] = [dict(e_) for e_ in w5["events"]] + [{"boundary": 0, "running": 1, "x": 1.0, "fb": 0.0, "fba": 0.0} for t in range(12)]
+    return [w1, w2, w3, w4, w5, w6]
 
 
 def add_resume(r, c):
@@ -924,6 +929,9 @@ def add_resume(r, c):
             return True                                    # the state is written before the variable's first update
         return (not nxt_) or abs(pdiff(c, ev[nxt_[0]]["x"] - ev[last[-1]]["x"])) <= 0.49 * c["width"]
     cand = [K for K in range(1, len(ev)) if (aw[K - 1][2] or (r.random() < 0.7 and sleeping_ok(K)))]
+    early = [K for K in range(1, len(ev)) if not any(aw[j][2] for j in range(K))]
+    if early and r.random() < 0.5:
+        cand = early                                        # state written before the variable's first update
     nxt = [K for K in cand if ev[K]["boundary"]]
     if nxt and r.random() < 0.4:
         cand = nxt                                           # the restart step is repeated at a run boundary
